@@ -48,9 +48,14 @@ pub fn structures(tier: &str, seed: u64) -> Vec<Structure> {
         out.extend(scen::core_structures(c));
         let ext = scen::extended_structures(c);
         if tier == "thorough" {
-            out.extend(ext);
+            // the many-batch and high-id structures are explored on the base configuration only (they do not interact
+            // with the treasury / oracle / prefix options and dominate the running time)
+            let heavy = |s: &Structure| s.name.contains("/sub") && s.name.ends_with("+pend") && s.batches.len() > 5 || s.name.contains("/ids");
             if i == 0 {
+                out.extend(ext);
                 out.extend(scen::generated_structures(c));
+            } else {
+                out.extend(ext.into_iter().filter(|s| !heavy(s)));
             }
         } else if i == 0 {
             // quick: the whole extended family for the base configuration, a seed-dependent pair for the others
